@@ -20,8 +20,12 @@
 //                               W<a>:<src>:<mode><k><rel><x>  write enable computed from read data: cond = (async data of read port k)
 //                                 <rel> x, rel = l (<) e (==) n (!=), x = d (the data pin) or a decimal constant;
 //                                 mode o: IF(cond) (no enable pin, logged as 1), a: IF(pin & cond), r: IF(pin | cond)
-//   clk: first char P = initializeMemory (power-on contents honoured) / - ; second char S = memoryResetType
-//        SYNCHRONOUS (reset logic initialises the memory after postprocessing) / N = NONE
+//   clk: first char P = initializeMemory (power-on contents honoured) / - ; second char memoryResetType S = SYNCHRONOUS,
+//        A = ASYNCHRONOUS (reset logic initialises the memory after postprocessing) / N = NONE; optional third char reset
+//        polarity H / L (resetActive), fourth char resetType of the registers S / A, then the number of cycles the reset is
+//        held beyond depth + 2
+//   init: none | zero (initZero) | fill | part (fillPowerOnState, whole / first half) | rlogic (addResetLogic: word a = 3a+1;
+//        the contents exist only through the generated reset logic)
 //
 // out-file, per case:
 //   M <echo> | L=<read latency used> abits=<address pin width> words=<w0,w1,..> (declared contents, MSB first, X = undefined)
@@ -153,9 +157,14 @@ void runCase(const Case &cs, std::ostream &out)
 	if (auto d = mkDevice(dev)) design.setTargetTechnology(std::move(d));
 
 	ClockConfig ccfg{ .absoluteFrequency = hlim::ClockRational(100'000'000, 1), .name = "clk" };
-	ccfg.memoryResetType = clk.size() > 1 && clk[1] == 'N' ? ClockConfig::ResetType::NONE : ClockConfig::ResetType::SYNCHRONOUS;
+	ccfg.memoryResetType = clk.size() > 1 && clk[1] == 'N' ? ClockConfig::ResetType::NONE
+		: clk.size() > 1 && clk[1] == 'A' ? ClockConfig::ResetType::ASYNCHRONOUS : ClockConfig::ResetType::SYNCHRONOUS;
 	ccfg.initializeMemory = !clk.empty() && clk[0] == 'P';
+	if (clk.size() > 2) ccfg.resetActive = clk[2] == 'L' ? ClockConfig::ResetActive::LOW : ClockConfig::ResetActive::HIGH;
+	if (clk.size() > 3) ccfg.resetType = clk[3] == 'A' ? ClockConfig::ResetType::ASYNCHRONOUS : ClockConfig::ResetType::SYNCHRONOUS;
 	Clock clock(ccfg);
+	// reset held for longer than the minimum the memory initialisation asks for
+	if (clk.size() > 4) clock.getClk()->setMinResetCycles(depth + 2 + (size_t)atoi(clk.c_str() + 4));
 	ClockScope cscope(clock);
 
 	const size_t abits = utils::Log2C(depth);
@@ -169,7 +178,14 @@ void runCase(const Case &cs, std::ostream &out)
 	if (latReq >= 0) mem.setType(mt, (size_t)latReq); else mem.setType(mt);
 	if (nc) mem.noConflicts();
 	if (exact) mem.undefinedReadAddrBehavior(UndefinedReadAddrBehavior::EXACT);
-	if (init == "zero") {
+	if (init == "rlogic") {
+		// contents defined only through the initialisation network: word a = 3 * a + 1 (mod 2^width)
+		mem.addResetLogic([&](UInt a) {
+			UInt r = a.width().value >= width ? UInt(a.lower(BitWidth(width))) : UInt(zext(a, BitWidth(width)));
+			return UInt(r + r + r + 1);
+		});
+		for (size_t i = 0; i < depth; i++) initWords[i] = numBits((3 * i + 1) & ((1ull << width) - 1), width);
+	} else if (init == "zero") {
 		mem.initZero();
 		for (auto &w : initWords) w = std::string(width, '0');
 	} else if (init == "fill" || init == "part") {
